@@ -42,6 +42,10 @@ Checks(e) ==
               "a committed offset covers records that were not yet returned by a poll that was followed by another poll">> >>
     [] e.ev = "commit_arrive" /\ mode = "commits" ->
          << <<\A i \in DOMAIN e.offsets : KOf(e.offsets[i].o) >= lastArr, "offset commits reached the coordinator out of issue order">> >>
+    \* autocommit left on, positions only advance: whatever reaches the coordinator later was issued later and carries at least the same offset
+    [] e.ev = "commit_arrive" /\ mode = "autocommits" ->
+         << <<\A i \in DOMAIN e.offsets : (e.offsets[i].t = "a" /\ e.offsets[i].p = 0) => e.offsets[i].o >= lastArr,
+              "an autocommit reached the coordinator after the later synchronous commit that was issued behind it (offset commits out of issue order)">> >>
     [] e.ev = "settled" ->
          << <<\A t \in SeqSet(e.subscribed) : \A p \in 0..(nparts - 1) :
                 Cardinality({m \in SeqSet(e.live) : m \in DOMAIN own /\ (t \o "/" \o ToString(p)) \in own[m]}) = 1,
@@ -51,6 +55,10 @@ Checks(e) ==
               "the final committed offset covers records that were not returned and followed by another poll">>,
             <<\A i \in DOMAIN e.committed : \A o \in 0..(e.committed[i].o - 1) : <<e.committed[i].t, e.committed[i].p, o>> \in returned,
               "a record below the group's final committed offset was never returned to any member">> >>
+    [] e.ev = "final" /\ mode = "autocommits" ->
+         LET fin == {e.committed[i].o : i \in {j \in DOMAIN e.committed : e.committed[j].t = "a" /\ e.committed[j].p = 0}} IN
+         << <<(okSet # {}) => fin = {issued[LastOk]}, "the final committed offset is not the value of the last successful commit (an older commit took effect last)">>,
+            <<(okSet # {} /\ clientC # -2) => clientC = issued[LastOk], "CommittedOffsets does not report the last successful commit">> >>
     [] e.ev = "final" /\ mode = "commits" ->
          LET fin == {e.committed[i].o : i \in {j \in DOMAIN e.committed : e.committed[j].t = "a" /\ e.committed[j].p = 0}} IN
          << <<(okSet # {}) => (fin # {} /\ fin \subseteq AllowedFinal), "the final committed offset is not the value of the last successful commit (an older commit took effect last)">>,
@@ -77,6 +85,10 @@ Apply(e) ==
          /\ arrived' = arrived \cup {e.offsets[i].o : i \in DOMAIN e.offsets}
          /\ lastArr' = (IF Len(e.offsets) > 0 THEN KOf(e.offsets[1].o) ELSE lastArr)
          /\ U(<<mode, nparts, own, pending, done, returned, issued, okSet, clientC, traces>>)
+    [] e.ev = "commit_arrive" /\ mode = "autocommits" ->
+         /\ lastArr' = Max(lastArr, LET O == {e.offsets[i].o : i \in {j \in DOMAIN e.offsets : e.offsets[j].t = "a" /\ e.offsets[j].p = 0}} IN
+                                    IF O = {} THEN lastArr ELSE CHOOSE o \in O : \A o2 \in O : o2 <= o)
+         /\ U(<<mode, nparts, own, pending, done, returned, issued, okSet, arrived, clientC, traces>>)
     [] e.ev = "client_committed" -> clientC' = e.off /\ U(<<mode, nparts, own, pending, done, returned, issued, okSet, arrived, lastArr, traces>>)
     [] OTHER -> U(<<mode, nparts, own, pending, done, returned, issued, okSet, arrived, lastArr, clientC, traces>>)
 Next == l <= Len(TraceLog) /\ Ok(Ev) /\ Apply(Ev) /\ l' = l + 1
